@@ -840,6 +840,8 @@ def al_term(d):
 
 # =============================================================================================== harness interface
 def run_impl(c):
+    if c["k"] == "print":          # replay of the Print observation: the simulator's texts
+        return print_texts(c["specs"])[1]
     d = c["d"]
     if c["k"] == "al":
         try:
@@ -1057,15 +1059,12 @@ def render_rtlil_format(fmt, value):
     return "".join(out)
 
 
-def print_observation():
-    """Print(Format(spec, a)) for a grid of decimal format specs: simulator text vs the text of the emitted $print
-    FORMAT string; returns the specs on which they differ"""
+def print_texts(specs):
+    """Print(Format('[{:SPEC}]', a)), a = 42, for every spec: (text of the emitted $print FORMAT, simulator text)"""
     import io, contextlib, re
     from amaranth.hdl import Signal, Module, Print, Format
     from amaranth.back import rtlil
     from amaranth.sim import Simulator
-    specs = [al + z0 + "5" + sg for al in ("", "<", ">", "=", "x<", "x>", "x=", "0<", "0>") for z0 in ("", "0")
-             for sg in ("",)] + ["+5", "+05", "<+5", ""]
 
     def mk():
         a = Signal(8, init=42)
@@ -1087,9 +1086,17 @@ def print_observation():
         sim.run()
     lines = buf.getvalue().splitlines()
     if len(fmts) != len(specs) or len(lines) != len(specs):
-        return [("<count>", str(len(fmts)), str(len(lines)))]
-    return [(sp, render_rtlil_format(f, 42).rstrip("\n"), o) for sp, f, o in zip(specs, fmts, lines)
-            if render_rtlil_format(f, 42).rstrip("\n") != o]
+        raise ValueError(f"{len(specs)} specs, {len(fmts)} FORMAT strings, {len(lines)} printed lines")
+    return [render_rtlil_format(f, 42).rstrip("\n") for f in fmts], lines
+
+
+def print_observation():
+    """a grid of decimal format specs: simulator text vs the text of the emitted $print FORMAT string;
+    returns the specs on which they differ"""
+    specs = [al + z0 + "5" for al in ("", "<", ">", "=", "x<", "x>", "x=", "0<", "0>") for z0 in ("", "0")] + \
+            ["+5", "+05", "<+5", ""]
+    rt, si = print_texts(specs)
+    return [(sp, r, o) for sp, r, o in zip(specs, rt, si) if r != o]
 
 
 def extra(tier, seed, findings):
